@@ -124,6 +124,44 @@ int run_beatgrid(std::istream& in)
     }
     return 0;
 }
+// Extreme inputs of normalize_beatgrid (indices at the edges of int32, sample counts up to 2^63 - 1): numbers too wide for
+// TLC are passed as decimal strings; the record carries the outcome and a summary of the result (C20: rejected with
+// invalid_argument or a grid starting at beat -4; C15: no undefined behaviour - this mode runs in the sanitizer flavour).
+int run_beatgrid_extreme(std::istream& in)
+{
+    std::string line;
+    while (std::getline(in, line))
+    {
+        if (line.empty())
+            continue;
+        json p = json::parse(line);
+        std::vector<dj::beatgrid_marker> g;
+        for (auto& m : p.at("g"))
+            g.push_back(dj::beatgrid_marker{m.at("i").get<int>(), std::stod(m.at("o").get<std::string>())});
+        int64_t sc = std::stoll(p.at("sc").get<std::string>());
+        json r = {{"x", true}, {"g", p.at("g")}, {"sc", p.at("sc")}};
+        std::vector<dj::beatgrid_marker> res;
+        auto oc = vh::guarded("normalize_beatgrid", [&] { res = dj::engine::normalize_beatgrid(g, sc); });
+        r["out"] = oc.ok ? "ok" : "throw";
+        r["ex"] = oc.ex;
+        r["std"] = oc.std_exc;
+        r["n"] = (int64_t)res.size();
+        r["first"] = res.empty() ? 0 : res.front().index;
+        bool inc = true, fin = true;
+        for (size_t k = 0; k < res.size(); ++k)
+        {
+            fin = fin && std::isfinite(res[k].sample_offset);
+            if (k > 0)
+                inc = inc && res[k].index > res[k - 1].index && res[k].sample_offset > res[k - 1].sample_offset;
+        }
+        r["inc"] = inc;
+        r["finite"] = fin;
+        // (tempi here are not integer-valued: "at or beyond the end" up to floating-point rounding, as the property says)
+        r["last_ge_end"] = !res.empty() && res.back().sample_offset >= (double)sc - std::max(1e-6, std::fabs((double)sc) * 1e-12);
+        vh::emit(r);
+    }
+    return 0;
+}
 }  // namespace
 
 int main(int argc, char** argv)
@@ -141,7 +179,7 @@ int main(int argc, char** argv)
     vh::install_handlers();
     vh::g_watchdog_s = 5;
     std::string mode = argv[1];
-    int rc = mode == "waveform" ? run_waveform(in) : mode == "beatgrid" ? run_beatgrid(in) : 2;
+    int rc = mode == "waveform" ? run_waveform(in) : mode == "beatgrid" ? run_beatgrid(in) : mode == "beatgridx" ? run_beatgrid_extreme(in) : 2;
     fclose(out);
     return rc;
 }
